@@ -66,12 +66,28 @@ def _history(draw, tier):
             conn = draw(st.sampled_from(["and", "and", "or"]))
             parts = [cond, flaky] if draw(st.booleans()) else [flaky, cond]
             cond = [conn, draw(st.sampled_from(["nary", "binl"])), parts]
+        if chance(draw, 1, 4):
+            # a nested sub-query (its state lives beneath a quantifier of its own)
+            v = draw(st.integers(0, nvars - 1))
+            if cond[0] in ("and", "or") and draw(st.booleans()):
+                cond = [cond[0], cond[1], [["sub", "entity", [v], cond[2][0]]] + cond[2][1:]]
+            else:
+                cond = ["sub", "entity", [v], cond]
         k = draw(st.integers(1, nvars))
         order = list(draw(st.permutations(list(range(nvars))))[:k])
         sel = [["var", v] for v in order]
         desc = "entity" if (len(sel) == 1 and draw(st.booleans())) else "set_of"
         quant = "the" if chance(draw, 1, 6) else "an"
-        pool.append({"cond": cond, "sel": sel, "desc": desc, "quant": quant, "split_top": draw(st.booleans())})
+        spec = {"cond": cond, "sel": sel, "desc": desc, "quant": quant, "split_top": draw(st.booleans())}
+        # two queries may be built from the SAME condition object (users do reuse a condition they built once); only
+        # negation-free conditions, because not_() rewrites its operand in place
+        donors = [j for j, s_ in enumerate(pool) if not A.has_kind(s_["cond"], "not") and "share_with" not in s_]
+        if donors and chance(draw, 1, 4):
+            j = draw(st.sampled_from(donors))
+            spec["cond"] = pool[j]["cond"]
+            spec["split_top"] = pool[j]["split_top"]
+            spec["share_with"] = j
+        pool.append(spec)
     ops = []
     for _ in range(draw(st.integers(2, 8))):
         qi = draw(st.integers(0, len(pool) - 1))
@@ -89,6 +105,26 @@ def _history(draw, tier):
 
 def strategy(tier):
     return _history(tier)
+
+
+def _build_sharing(V, spec, conts, shared_conds=None):
+    """Like build.build_over, but optionally built from condition OBJECTS that another query already uses."""
+    from entity_query_language import an, the, entity, set_of, symbolic_mode
+    from ..build import build_term, build_cond, Built
+    cond = spec["cond"]
+    with symbolic_mode():
+        sel = [build_term(t, V) for t in spec["sel"]]
+        if shared_conds is not None:
+            conds = shared_conds
+        elif spec.get("split_top") and cond[0] == "and":
+            conds = [build_cond(x, V) for x in cond[2]]
+        else:
+            conds = [build_cond(cond, V)]
+        d = entity(sel[0], *conds) if spec["desc"] == "entity" else set_of(sel, *conds)
+        q = an(d) if spec["quant"] == "an" else the(d)
+    b = Built(q, V, sel, spec["desc"], conts)
+    b.conds = conds
+    return b
 
 
 def _outcome_the(built):
@@ -115,13 +151,20 @@ def check(case) -> Outcome:
     (enable_caching if case["caching"] else disable_caching)()
     FAULT.update(armed=False, calls=0, at=0)
     classes = ["caching_on" if case["caching"] else "caching_off", f"vars{len(case['vars'])}"]
+    if any(s_.get("share_with") is not None for s_ in case["pool"]):
+        classes.append("shared_condition_object")
+    if any(A.has_kind(s_["cond"], "sub") for s_ in case["pool"]):
+        classes.append("nested_subquery")
     if has_dup:
         classes.append("repeated_object_in_domain")
     feats = list(classes)
     try:
         V, conts = declare_vars(case, objs)
         conts_before = [list(map(id, c)) for c in conts]
-        builts = [build_over(V, spec, conts=conts) for spec in case["pool"]]
+        builts = []
+        for spec in case["pool"]:
+            shared = builts[spec["share_with"]].conds if spec.get("share_with") is not None else None
+            builts.append(_build_sharing(V, spec, conts, shared))
         twins = {}
         first_lists = {}
         disturbed_vars = set()      # variables of queries whose evaluation was abandoned or aborted so far
@@ -173,7 +216,9 @@ def check(case) -> Outcome:
                 if has_dup:
                     # the exact list when every variable of the query is selected; under projection only the row set
                     # (how often a projected row repeats is not asserted by any property, cf. C02)
-                    key = [ident(r) for r in got] if all_vars_selected(sc) else sorted(set(map(repr, map(ident, got))))
+                    # (row order of a multi-variable result is not promised either: multiset, not list)
+                    key = sorted(map(repr, map(ident, got))) if all_vars_selected(sc) else \
+                        sorted(set(map(repr, map(ident, got))))
                     if qi in first_lists and first_lists[qi] != key:
                         return fail("repeated_object_first_vs_later", f"{label}: first full evaluation returned "
                                                                       f"{first_lists[qi]} rows, this one {show_rows(got)}",
